@@ -64,7 +64,8 @@ def scenario(rng):
             if cb["prov"] in late and cb.get("style") != "convention":
                 cb["prov"] = "sm"            # explicit names must resolve at construction
         ctor = [p for p in new["provs"] if p not in late]
-        ctor_async = any(cb["coro"] and cb["prov"] in ctor for cb in d["cbs"])
+        from checks.c12 import registered     # (a convention callback of an event no transition carries is never registered)
+        ctor_async = any(cb["coro"] and cb["prov"] in ctor and registered(d, cb) for cb in d["cbs"])
         for cb in d["cbs"]:
             if cb["prov"] in late and not ctor_async:
                 cb["coro"] = False           # (known finding F7: coroutine listener added to a sync-engine machine)
